@@ -10,6 +10,7 @@ package go_zero
 // handler) stands between the observer and the adapter.
 
 import (
+	"strings"
 	"net/http"
 	"net/http/httptest"
 	"strconv"
@@ -113,6 +114,10 @@ type c19Case struct {
 	FallbackAvailable bool `json:"fallback_available"`
 	// order of slot callbacks and handler / fallback calls for the resource, e.g. "passed,handler,completed"
 	Seq string `json:"seq"`
+	// HTTP drivers: the response body, and (when BodyChecked) the body the configured fallback writes
+	Body         string `json:"body"`
+	FallbackBody string `json:"fallback_body"`
+	BodyChecked  bool   `json:"body_checked"`
 	// request made earlier on the same resource ("" = none): thorough tier, two-request histories
 	History string `json:"history"`
 	Notes                 string `json:"notes,omitempty"`
@@ -396,6 +401,7 @@ func c19GoZeroCase(t *testing.T, ep string, admitted, fallback bool, handler str
 	r := httptest.NewRequest(http.MethodGet, path, nil)
 	c.EscapedPanic = c19Guard(func() { h(w, r) })
 	c.Response = strconv.Itoa(w.Code)
+	c.Body, c.FallbackBody, c.BodyChecked = strings.TrimSpace(w.Body.String()), "c19 fallback", true
 	c.DefaultRejectionSeen = w.Code == http.StatusTooManyRequests
 	c19Finish(t, c)
 }
